@@ -190,7 +190,7 @@ def run_tlc(module, cfg, tag="tlc", workers=None, simulate=None, depth=None, env
     JSON lines printed by the spec with PrintT(ToJson(..)) are decoded into .json
     (or handed to sink(obj) one by one when sink is given)."""
     md = workdir(tag)
-    cmd = ["java", "-XX:+UseSerialGC", "-Xmx" + xmx]
+    cmd = ["java", "-XX:+UseSerialGC", "-Xss64m", "-Xmx" + xmx]
     if dfs:
         cmd.append("-Dtlc2.tool.queue.IStateQueue=StateDeque")
     cmd += ["-cp", TLC_JAR, "tlc2.TLC", "-noGenerateSpecTE", "-metadir", md, "-config", os.path.join(SPEC, cfg)]
